@@ -126,7 +126,13 @@ def expected(name, kw, prm, img, dt):
     if name == 'Posterize':
         bits = prm['num_bits']
         if isinstance(bits, (list, tuple)):
-            return None
+            # per-channel depths (documented for 3-channel uint8 images): each channel keeps its own number of high bits
+            if not (dt == 'uint8' and img.ndim == 4 and len(bits) == img.shape[-1]):
+                return None
+            out = img.copy()
+            for c, b in enumerate(bits):
+                out[..., c] = 0 if b == 0 else (img[..., c] & ~np.uint8(2 ** (8 - int(b)) - 1))
+            return out, 0
         nb = {'uint8': 8, 'uint16': 8, 'int16': 16, 'int32': 32}[dt]
         if bits == 0:
             return np.zeros_like(img), 0
@@ -213,7 +219,8 @@ CONFIGS = {
                                  {'brightness_limit': (-0.3, -0.1), 'contrast_limit': 0}],
     'GaussNoise': [{}, {'var_limit': 20.0, 'mean': 3}, {'var_limit': (5.0, 30.0), 'per_channel': False},
                    {'apply_to_channel_idx': 0, 'var_limit': 30.0}, {'apply_to_channel_idx': 1, 'var_limit': 30.0, 'per_channel': False}],
-    'Posterize': [{'num_bits': 4}, {'num_bits': (2, 6)}, {'num_bits': 1}],
+    'Posterize': [{'num_bits': 4}, {'num_bits': (2, 6)}, {'num_bits': 1}, {'num_bits': [3, 8, 5], '__channels__': 3},
+                  {'num_bits': [[3, 4], [8, 8], [2, 6]], '__channels__': 3}, {'num_bits': [1, 7, 0], '__channels__': 3}],
     'Blur': [{}, {'blur_limit': (3, 5), 'by_slice': True}, {'mode': 'reflect'}, {'mode': 'nearest', 'cval': 3}, {'mode': 'wrap'},
              {'blur_limit': (4, 4)}, {'blur_limit': (2, 6), 'by_slice': True}, {'blur_limit': (6, 6), 'mode': 'reflect'},
              {'mode': 'constant', 'cval': 7}],
@@ -233,6 +240,11 @@ def check(case):
     name, kw, dt = case['name'], dict(case['kw']), case['dtype']
     kw = {k: (tuple(v) if isinstance(v, list) else v) for k, v in kw.items()}
     shape = tuple(case['shape']) + ((case['channels'],) if case['channels'] else ())
+    if '__channels__' in kw:
+        # a configuration that addresses the channels: documented for uint8 images with that many channels
+        if dt != 'uint8':
+            return None
+        shape = tuple(case['shape']) + (kw.pop('__channels__'),)
     rs = np.random.RandomState(case['seed'] % 99989)
     if 'apply_to_channel_idx' in kw and len(shape) == 3:
         shape = shape + (2,)           # the option addresses a channel: needs a channel axis
